@@ -93,11 +93,11 @@ def build_sims():
     return sims
 
 
-def set_random_state(kind, sim, rng):
+def set_random_state(kind, sim, rng, mag=1.0):
     fields = {}
     for pt in sim.Get_problemTypes():
         n = sim.mesh.Nn * sim.Get_dof_n(pt)
-        u, v, a = (rng.uniform(0.1, 1.0, n) * 1e-2 for _ in range(3))
+        u, v, a = (rng.uniform(0.1, 1.0, n) * 1e-2 * mag for _ in range(3))
         sim._Set_solutions(pt, u, v, a)
         fields[str(pt)] = (u, v, a)
     return fields
@@ -187,7 +187,7 @@ def to_elements(sim, ref):
     return np.concatenate([x[g.connect].mean(1) for g in sim.mesh.Get_list_groupElem(sim.mesh.dim)])
 
 
-def tokenise(arr, cands, sim=None, nodal=None):
+def tokenise(arr, cands, sim=None, nodal=None, atol=1e-14):
     """all candidate tokens the array equals IN THE REQUESTED FORM (several when a vector has a single component)"""
     arr = np.asarray(arr, dtype=float)
     out = []
@@ -199,19 +199,23 @@ def tokenise(arr, cands, sim=None, nodal=None):
                 continue  # smoothing to the nodes: Results.tla judges the form only
             if not nodal and stored_at_nodes:
                 ref = to_elements(sim, ref)
-        if arr.size == ref.size and arr.size > 0 and np.allclose(arr.ravel(), ref.ravel(), rtol=1e-9, atol=1e-14):
+        if arr.size == ref.size and arr.size > 0 and np.allclose(arr.ravel(), ref.ravel(), rtol=1e-9, atol=atol):
             out.append(list(tok))
     return out
 
 
-def record(ctx, seed):
+def record(ctx, seed, mag=1.0):
+    """mag: magnitude of the random state relative to the default one (1e-2): a named result is the same function of the state
+    at every magnitude - a state of 1e-11 (metres, kelvins) is as good a state as one of 1e-2"""
     rng = np.random.default_rng(seed + 3)
     rows, notes = [], []
     for kind, dim, dofn, sim in build_sims():
         if kind == "ERR":
             notes.append(sim)
             continue
-        fields = set_random_state(kind, sim, rng)
+        if mag != 1.0 and kind in ("PhaseField", "InElastic"):
+            continue  # their results involve thresholds of the model (damage history, yield stress): a tiny state is a different regime, not a rescaled one
+        fields = set_random_state(kind, sim, rng, mag)
         cands = candidates(kind, dim, dofn, sim, fields)
         avail = [str(getattr(n, "value", n)) for n in sim.Results_Available()]
         base = dict(sim=kind, dim=dim, dofn=dofn, Nn=int(sim.mesh.Nn), Ne=int(sim.mesh.Ne), avail=avail)
@@ -228,7 +232,7 @@ def record(ctx, seed):
                     continue
                 if np.ndim(val) == 0:
                     continue
-                toks = tokenise(val, cands, sim, nodeValues) or [["other", "other"]]
+                toks = tokenise(val, cands, sim, nodeValues, atol=1e-14 * mag ** (2 if kind == "HyperElastic" else 1)) or [["other", "other"]]
                 rows.append(dict(base, name=name, tokens=toks, node=nodeValues, size=int(np.size(val))))
     return rows, notes
 
@@ -364,6 +368,8 @@ def binding_selftest(ctx, rows):
 
 def run(ctx):
     rows, notes = record(ctx, ctx.seed)
+    rows_small, _ = record(ctx, ctx.seed + 1, mag=1e-9)
+    rows = rows + rows_small
     path = os.path.join(ctx.scratch, "results.json")
     json.dump(rows, open(path, "w"))
     res = ctx.tlc("Results", "Results.cfg", workers=4, env={"RESULT_TABLE": path}, timeout=1200)
